@@ -17,14 +17,14 @@ RULE = ("differential monitor over whole boundary traces: for each seeded case (
         "before construction and between construction and optimize(), (iii) with other BADS objects constructed (and even run) "
         "between constructing and running the instance under test, (iv) under a different PYTHONHASHSEED, (v) a second identical "
         "fresh instance run in the same process, (vi) after / interleaved with SIBLING runs: the same problem (same D, bounds, target) "
-        "under another seed, budget and initial-design size - the history most likely to collide with any per-process cache; (vii) OPTION-VARIANT siblings: the same problem constructed (or run) first under other non-seed option values (tol_fun, tol_mesh, n_search, hedge_gamma, ...), so that anything derived from one instance's options and kept per process shows up. Oracle: bitwise equality of the ordered list of (x bytes, returned value bytes) and "
+        "under another seed, budget and initial-design size - the history most likely to collide with any per-process cache; (viii) other process-global state touched before construction: numpy print options (precision, suppress, linewidth, threshold) and floating-point error handling; (vii) OPTION-VARIANT siblings: the same problem constructed (or run) first under other non-seed option values (tol_fun, tol_mesh, n_search, hedge_gamma, ...), so that anything derived from one instance's options and kept per process shows up. Oracle: bitwise equality of the ordered list of (x bytes, returned value bytes) and "
         "of x, fval, fsd, func_count, message; the first divergent call index is the witness. Non-trivial: variant whose history "
         "measurably perturbed the global RNG state at construction or at optimize() time (state digests differ from the reference) "
         "and whose trace has >= 20 calls; distinct = distinct (case, variant kind)")
 RUN_KW = {"quick": dict(timeout_case=900, wall_cap=1000), "thorough": dict(timeout_case=3200, wall_cap=3400)}
 ASSUMPTIONS = ["targets with a private unseeded generator are excluded: they are not 'the same target'"]
 
-VARIANTS = ["pre-opt", "pre-rng", "mid-construct", "mid-opt-rng", "hashseed", "second", "all", "pre-sibling", "mid-sibling", "pre-optvar", "mid-optvar"]
+VARIANTS = ["pre-opt", "pre-rng", "mid-construct", "mid-opt-rng", "hashseed", "second", "all", "pre-sibling", "mid-sibling", "pre-optvar", "mid-optvar", "pre-printopts"]
 
 
 def cases(tier, seed):
@@ -45,9 +45,11 @@ def cases(tier, seed):
             spec["options"]["random_seed"] = sv
         nv = 4 if tier == "quick" else 6
         vs = list(rng.choice(VARIANTS, size=nv, replace=False))
-        ov = ["pre-optvar", "mid-optvar"][i % 2]
+        ov = ["pre-optvar", "mid-optvar", "pre-printopts"][i % 2]
         if ov not in vs:
             vs.append(ov)
+        if i % 2 == 0 and "pre-printopts" not in vs:
+            vs.append("pre-printopts")
         if rng.random() < 0.3:
             spec["options"]["tol_fun"] = float(rng.choice([1e-5, 1e-2, 1.0]))
         out.append({"spec": spec, "variants": vs, "pseed": int(rng.integers(1 << 30))})
@@ -77,6 +79,8 @@ def mkplan(kind, rs):
         p["pre"] = [["sibling", int(rs.randint(10**6)), True]] + ([["sibling", int(rs.randint(10**6)), True]] if rs.rand() < 0.5 else [])
     elif kind == "mid-sibling":
         p["mid"] = [["sibling", int(rs.randint(10**6)), bool(rs.rand() < 0.7)]]
+    elif kind == "pre-printopts":
+        p["pre"] = [["printopts", int(rs.choice([2, 3, 4])), int(rs.choice([40, 200])), int(rs.choice([3, 1000]))], rngs()]
     elif kind == "pre-optvar":
         # FIRST instance of this D in the process: same problem under other option values (constructed only, or run)
         p["pre"] = [["sibling", int(rs.randint(10**6)), bool(rs.rand() < 0.5), True]]
